@@ -2,7 +2,17 @@
 import kdf
 
 W = 1 << 64
-THEOREMS = ["Kdf.Props.C02." + t for t in ("walk_eq_spec_pgt", "walk_eq_spec_linear", "walk_eq_spec_lookup", "walk_eq_spec_memarr", "noncanonical_invalid", "launch_steps_eq_walk")]
+# proof modules (lean/Kdf/Props/C02*.lean) -> theorems audited by the check (build + #print axioms)
+PROOFS = [
+    ("Kdf.Props.C02", ["walk_eq_spec_pgt", "walk_eq_spec_linear", "walk_eq_spec_lookup", "walk_eq_spec_memarr",
+                       "noncanonical_invalid", "launch_steps_eq_walk"]),
+    ("Kdf.Props.C02Aarch64", ["walk_eq_spec_aarch64"]),
+    ("Kdf.Props.C02Arm", ["walk_eq_spec_arm"]),
+    ("Kdf.Props.C02S390x", ["walk_eq_spec_s390x", "walk_eq_specWith_library"]),
+    ("Kdf.Props.C02Ppc64", ["walk_eq_spec_ppc64"]),
+]
+PROOF_MODULES = [m for m, _ in PROOFS]
+THEOREMS = [m + "." + t for m, ts in PROOFS for t in ts]
 FORMS = {
     "x86_64": [[12, 9, 9, 9, 9], [12, 9, 9, 9, 9, 9]],
     "ia32": [[12, 10, 10]],
@@ -10,17 +20,42 @@ FORMS = {
     "riscv64": [[12, 9, 9, 9], [12, 9, 9, 9, 9], [12, 9, 9, 9, 9, 9]],
     "pfn32": [[12, 10, 10], [12, 20]],
     "pfn64": [[12, 9, 9, 9], [16, 13]],
-    "aarch64": [[12, 9, 9, 9, 9], [14, 11, 11, 11, 1], [16, 13, 13, 6]],
-    "aarch64_lpa": [[16, 13, 13, 10]],
-    "aarch64_lpa2": [[12, 9, 9, 9, 9, 4], [14, 11, 11, 11, 5]],
-    "arm": [[12, 8, 12]],
+    # AArch64: [granule, granule-3, ..., top]; VA sizes 48 / 39 / 42 / 25 / 16 (4K), 48 / 47 / 36 / 16 (16K),
+    # 48 / 42 / 52 (FEAT_LVA) / 17 (64K); LPA (64K) and LPA2 (4K, 16K) with 52, 49/50 and <= 48 VA bits
+    "aarch64": [[12, 9, 9, 9, 9], [12, 9, 9, 9], [12, 9, 9, 9, 3], [12, 9, 4], [12, 4],
+                [14, 11, 11, 11, 1], [14, 11, 11, 11], [14, 11, 11], [14, 2],
+                [16, 13, 13, 6], [16, 13, 13], [16, 13, 13, 10], [16, 1]],
+    "aarch64_lpa": [[16, 13, 13, 10], [16, 13, 13, 7], [16, 13, 13, 6], [16, 13, 13]],
+    "aarch64_lpa2": [[12, 9, 9, 9, 9, 4], [12, 9, 9, 9, 9, 1], [12, 9, 9, 9, 9], [12, 9, 9, 9],
+                     [14, 11, 11, 11, 5], [14, 11, 11, 11, 2], [14, 11, 11, 11, 1], [14, 11, 11, 11]],
+    "arm": [[12, 8, 12 - n] for n in range(8)],          # TTBCR.N = 0..7 (TTBR0 table)
     "s390x": [[12, 8, 11, 11, 11, 11], [12, 8, 11, 11, 11], [12, 8, 11, 11], [12, 8, 11]],
-    "ppc64_linux_rpn30": [[16, 12, 12, 4]],
+    # Linux 64K pages: <= 3.9 (PTE 12, PMD 12, PGD 4) and 3.10..4.5 (PTE 8, PMD 10, PGD 12)
+    "ppc64_linux_rpn30": [[16, 12, 12, 4], [16, 8, 10, 12]],
 }
 PTE32 = {"ia32", "pfn32", "arm"}
-MODELLED = ["x86_64", "ia32", "ia32_pae", "riscv64", "pfn32", "pfn64"]
+AARCH64 = ("aarch64", "aarch64_lpa", "aarch64_lpa2")
+PPC64 = "ppc64_linux_rpn30"
+# the formats of Kdf/Model/Pgt.lean first (their part of the random stream does not depend on the others)
+MODELLED = ["x86_64", "ia32", "ia32_pae", "riscv64", "pfn32", "pfn64"] + list(AARCH64) + ["arm", "s390x", PPC64]
+
+# Documented deviation classes (knownDeviation in lean/Kdf/Spec/Arch*.lean; tag printed by the driver):
+#  genuine low-severity findings, recorded in KNOWN_FINDINGS and reported once per run under their key
+DEV_FINDINGS = {
+    "aarch64-va-range": "the aarch64 page-table methods (first_step_pgt_generic, no step_check_uaddr/saddr) ignore the "
+                        "address bits above the translated range; the architecture translates only the TTBR0 range "
+                        "(upper bits all zero) and the TTBR1 range (all one) and faults otherwise",
+    "arm-va-range": "the arm page-table method (first_step_pgt_generic, no step_check_uaddr) ignores the address bits "
+                    "from 32-N up; the architecture has 32-bit virtual addresses and, for TTBCR.N > 0, translates "
+                    "addresses >= 2^(32-N) through TTBR1, not through this table",
+}
+#  classes that are only counted (not claimed as defects): ppc64-D1 (_PAGE_PRESENT not checked), ppc64-D2 (hugepd
+#  encoding) -- the reference is a recollection of Linux sources; s390x-D2 (PTE bit 52 ignored) -- benign, and inside
+#  the class the library must still agree with the specification's own prediction (`specWith library`)
+DEV_COUNTED = ("ppc64-D1", "ppc64-D2", "s390x-D2")
 
 
+# ---------------------------------------------------------------- addresses
 def boundary_addrs(rng, form):
     vb = sum(form)
     out = {0, 1, W - 1, (1 << vb) - 1, 1 << vb if vb < 64 else 0, (1 << (vb - 1)) - 1, 1 << (vb - 1),
@@ -32,12 +67,22 @@ def boundary_addrs(rng, form):
     return [a % W for a in out]
 
 
-def rand_addr(rng, form):
+def rand_addr(rng, form, fmt=None):
     vb = sum(form)
     k = rng.random()
+    if fmt in AARCH64:
+        # mostly addresses the architecture translates (out-of-range ones are the finding aarch64-va-range)
+        if k < 0.8:
+            a = rng.getrandbits(vb)
+            if rng.random() < 0.4:
+                a |= (W - 1) & ~((1 << vb) - 1)     # TTBR1 range: upper bits all ones, bit vb-1 arbitrary
+            return a
+        if k < 0.9:
+            return rng.getrandbits(64)
+        return rng.choice(boundary_addrs(rng, form))
     if k < 0.5:
         a = rng.getrandbits(vb)
-        if rng.random() < 0.4 and vb < 64 and a >> (vb - 1):
+        if fmt != "arm" and rng.random() < 0.4 and vb < 64 and a >> (vb - 1):
             a |= (W - 1) & ~((1 << vb) - 1)         # canonical negative
         return a
     if k < 0.7:
@@ -45,10 +90,19 @@ def rand_addr(rng, form):
     return rng.choice(boundary_addrs(rng, form))
 
 
+# ---------------------------------------------------------------- memory
 def mem_line(rng, fmt, be=None):
+    if fmt == PPC64:
+        return mem_line_ppc64(rng, be)
+    if fmt == "s390x":
+        return mem_line_s390x(rng, be)
     seed = rng.getrandbits(48)
     if be is None:
         be = rng.random() < 0.3
+    if fmt == "arm":
+        return mem_line_arm(rng, seed, be)
+    if fmt in AARCH64:
+        return mem_line_aarch64(rng, fmt, seed, be), be
     # cell 0 = even cell. In LE the even cell is the low half of a 64-bit PTE.
     lo_or = 0
     k = rng.random()
@@ -73,8 +127,229 @@ def mem_line(rng, fmt, be=None):
     return "mem %d %d %d %d %d %d" % (seed, a0, o0, a1, o1, 1 if be else 0), be
 
 
+def mem_line_aarch64(rng, fmt, seed, be):
+    """descriptor bits 1:0 = valid/type; address bits: 47:g (49:g with LPA2), 15:12 (LPA), 9:8 (LPA2)"""
+    lo_and, lo_or, hi_and, hi_or = 0xffffffff, 0, 0xffffffff, 0
+    k = rng.random()
+    if k < 0.50:
+        lo_or |= 3                       # valid table/page descriptors everywhere: deep walks
+    elif k < 0.62:
+        lo_or |= 1; lo_and &= ~2         # 0b01 everywhere: block at the first level (or reserved there)
+    elif k < 0.90:
+        lo_or |= 1                       # valid, table-or-block at random: blocks at every level
+    # else: valid bit random too
+    top = 1 << (49 - 32 if fmt == "aarch64_lpa2" else 47 - 32)    # uppermost bit of the in-place address field
+    k = rng.random()
+    if k < 0.35:
+        hi_and = 0x000000ff              # keep physical addresses small
+    elif k < 0.50:
+        hi_and = 0xffffffff & ~top       # that bit clear, everything else random
+    elif k < 0.65:
+        hi_or = top                      # that bit set in every descriptor (table, block and page alike)
+    elif k < 0.75:
+        hi_and = 0x0000ffff if fmt != "aarch64_lpa2" else 0x0003ffff    # only address bits
+    if rng.random() < 0.2:
+        lo_and &= ~(0xf000 if fmt == "aarch64_lpa" else 0x300)          # OA[51:48] resp. OA[51:50] zero
+    if be:
+        a0, o0, a1, o1 = hi_and, hi_or, lo_and, lo_or
+    else:
+        a0, o0, a1, o1 = lo_and, lo_or, hi_and, hi_or
+    return "mem %d %d %d %d %d %d" % (seed, a0, o0, a1, o1, 1 if be else 0)
+
+
+def mem_line_arm(rng, seed, be):
+    """32-bit Arm short descriptors: bits[1:0] = type (00 fault, 01 page table / large page,
+    1x section|supersection / small page), bit 18 = supersection."""
+    a, o = 0xffffffff, 0
+    k = rng.random()
+    if k < 0.25:
+        pass                              # all four types, both levels
+    elif k < 0.45:
+        o |= 1                            # L1: table or section/supersection; L2: large or small page
+    elif k < 0.60:
+        o |= 1; a &= ~2                   # L1: always a page table; L2: always a large page
+    elif k < 0.75:
+        o |= 2                            # L1: section/supersection (L2 never reached except via flips)
+    elif k < 0.85:
+        o |= 2; o |= 1 << 18              # L1: supersection
+    elif k < 0.95:
+        o |= 2; a &= ~(1 << 18)           # L1: section
+    else:
+        a &= ~3                           # everything faults
+    if rng.random() < 0.3:
+        a &= 0x000fffff | 0x00f00000 * rng.choice([0, 1])   # small physical addresses
+    a1, o1 = a, o
+    if rng.random() < 0.3:
+        # descriptors at even and odd table indices differ: one parity holds page tables /
+        # large pages (01), the other sections / small pages (1x)
+        a, o, a1, o1 = (a | 3) & ~2, (o & ~3) | 1, a | 3, (o & ~3) | 2
+        if rng.random() < 0.5:
+            a, o, a1, o1 = a1, o1, a, o
+    return "mem %d %d %d %d %d %d" % (seed, a, o, a1, o1, 1 if be else 0), be
+
+
+def mem_line_s390x(rng, be):
+    """Region/segment-table entry, low word: TL 0x3, TT 0xc, CR 0x10, I 0x20, TF 0xc0, IEP 0x100,
+    P 0x200, FC 0x400 (page-table entry: I 0x400, must-be-zero 0x800), origin from 0x1000 up."""
+    seed = rng.getrandbits(48)
+    if be is None:
+        be = rng.random() < 0.7          # the architecture is big-endian
+    lo_and, lo_or, hi_and, hi_or = 0xffffffff, 0, 0xffffffff, 0
+    if rng.random() < 0.7:
+        lo_and &= ~0x20                  # entries valid
+    if rng.random() < 0.5:
+        lo_and &= ~0x400                 # no large frames, pages valid
+    if rng.random() < 0.7:
+        lo_and &= ~0x800                 # page-table entry bit 52
+    if rng.random() < 0.35:
+        lo_and &= ~0xc0                  # table offset 0
+    if rng.random() < 0.35:
+        lo_or |= 0x3                     # full table length
+    if rng.random() < 0.5:
+        hi_and = 0x000000ff              # keep physical addresses small
+    if be:
+        a0, o0, a1, o1 = hi_and, hi_or, lo_and, lo_or
+    else:
+        a0, o0, a1, o1 = lo_and, lo_or, hi_and, hi_or
+    return "mem %d %d %d %d %d %d" % (seed, a0, o0, a1, o1, 1 if be else 0), be
+
+
+def mem_line_ppc64(rng, be):
+    """Linux ppc64 software page tables: bit 63 = kernel virtual address (or PD_HUGE), bits 1:0 != 0 leaf PTE,
+    bits 5:2 MMU page size index of a hugepd, bit 0 _PAGE_PRESENT."""
+    seed = rng.getrandbits(48)
+    if be is None:
+        be = rng.random() < 0.6
+    lo_and, lo_or, hi_and, hi_or = 0xffffffff, 0, 0xffffffff, 0
+    k = rng.random()
+    if k < 0.45:                         # pure table pointers: deep walks (leaves are planted by overrides)
+        lo_and, hi_or = ~0x3f & 0xffffffff, 0x80000000
+    elif k < 0.60:                       # present leaf PTE everywhere
+        lo_or = 1
+    elif k < 0.68:                       # non-present, non-zero leaf PTE
+        lo_and, lo_or = ~1 & 0xffffffff, 2
+    elif k < 0.78:                       # hugepd as the library recognises it (bit 63 clear)
+        lo_and, lo_or, hi_and = ~0x3f & 0xffffffff, rng.randrange(16) << 2, 0x7fffffff
+    elif k < 0.88:                       # hugepd as Linux 3.10+ writes it (kernel virtual address | psize << 2)
+        lo_and, lo_or, hi_or = ~0x3f & 0xffffffff, rng.randrange(1, 16) << 2, 0x80000000
+    elif k < 0.93:                       # sparse: many zero entries
+        lo_and, hi_and = rng.choice([0, 0x40, 0x1]), rng.choice([0, 0x80000000])
+    if rng.random() < 0.3:
+        hi_and &= 0x800000ff             # small frame numbers
+    if be:
+        a0, o0, a1, o1 = hi_and, hi_or, lo_and, lo_or
+    else:
+        a0, o0, a1, o1 = lo_and, lo_or, hi_and, hi_or
+    return "mem %d %d %d %d %d %d" % (seed, a0, o0, a1, o1, 1 if be else 0), be
+
+
+# ---------------------------------------------------------------- ppc64: crafted entries
+def ppc64_entry(rng, kind):
+    kva = (0xc << 60) | (rng.getrandbits(rng.choice([24, 40, 59])) & ~0x3f)
+    if kind == "zero":
+        return 0
+    if kind == "table":
+        return kva
+    if kind == "table-lowbits":          # bits 6..14 set: below the alignment of the next table
+        return kva | (rng.getrandbits(9) << 6)
+    if kind == "leaf":                   # present leaf / last-level PTE
+        return (rng.getrandbits(rng.choice([34, 20])) << 30) | (rng.getrandbits(30) & ~3) | rng.choice([1, 3])
+    if kind == "leaf-notpresent":
+        return (rng.getrandbits(34) << 30) | (rng.getrandbits(30) & ~3) | 2
+    if kind == "pte-notpresent":         # only meaningful at the last level
+        return ((rng.getrandbits(34) << 30) | rng.getrandbits(30)) & ~1 | 4
+    if kind == "hugepd-kernel":
+        return kva | (rng.randrange(1, 16) << 2)
+    if kind == "hugepd-lib":
+        return (kva & ~(1 << 63)) | (rng.randrange(16) << 2)
+    if kind == "hugepd-lib-undefined-size":
+        return (kva & ~(1 << 63)) | (rng.choice([14, 15]) << 2)
+    raise KeyError(kind)
+
+
+PPC64_KINDS = ["zero", "table", "table-lowbits", "leaf", "leaf", "leaf-notpresent", "pte-notpresent", "hugepd-kernel",
+               "hugepd-lib", "hugepd-lib-undefined-size"]
+
+
+def ovr64(as_, a, val, be):
+    lo, hi = val & 0xffffffff, val >> 32
+    c0, c1 = (hi, lo) if be else (lo, hi)
+    return ["ovr %d %d %d" % (as_, a, c0), "ovr %d %d %d" % (as_, a + 4, c1)]
+
+
+# ---------------------------------------------------------------- s390x: address steering
+def _mix(seed, as_, a4):
+    """twin of mix() in harness/s_walk.c and Driver/Walk.lean (used only to steer addresses)"""
+    m = W - 1
+    z = (seed + 0x9E3779B97F4A7C15 * (a4 // 4 + 1) + as_ * 0xD1B54A32D192ED03) & m
+    z = ((z ^ (z >> 30)) * 0xBF58476D1CE4E5B9) & m
+    z = ((z ^ (z >> 27)) * 0x94D049BB133111EB) & m
+    z ^= z >> 31
+    return z & 0xffffffff
+
+
+def _read64(memcfg, as_, addr):
+    seed, a0, o0, a1, o1, be = memcfg
+    def cell(a4):
+        h = _mix(seed, as_, a4)
+        return (h & a0) | o0 if (a4 // 4) % 2 == 0 else (h & a1) | o1
+    a, b = cell(addr % W), cell((addr + 4) % W)
+    return (a << 32) | b if be else (b << 32) | a
+
+
+def steer_s390x(rng, ml, meth, form):
+    """The table type has to match at every level, which and/or masks common to all levels cannot
+    arrange.  Instead the input ADDRESS is chosen level by level such that the entry it selects in
+    the (pseudo-random) table looks as wanted.  This only steers the generator; what the entries
+    mean is decided by the implementation, the model and the specification."""
+    memcfg = tuple(int(x) for x in ml.split()[1:])
+    w = meth.split()
+    t, as_, tbl, mask = int(w[3]), int(w[4]), int(w[5]), int(w[6])
+    n = len(form)
+    va = 0
+    qlo, qhi = 0, 3
+    r = n - 1
+    while r >= 1:
+        shift, width = sum(form[:r]), form[r]
+        go_on = rng.random() < 0.93
+        huge = r in (2, 3) and rng.random() < 0.1
+        tf0 = rng.random() < 0.3         # insist on table offset 0 (otherwise any TF..TL window will do)
+        in_range = rng.random() < 0.85   # next index inside the TF..TL window of the entry chosen here
+        z52 = rng.random() < 0.9
+        idx = pte = 0
+        for _ in range(600 if go_on else 1):
+            idx = rng.getrandbits(width)
+            if width == 11 and in_range and qlo <= qhi:
+                idx = (rng.randint(qlo, qhi) << 9) | (idx & 0x1ff)
+            pte = _read64(memcfg, as_, tbl + 8 * idx) & ~mask
+            if r == 1:
+                good = not pte & 0x400 and (not z52 or not pte & 0x800)
+            else:
+                good = (not pte & 0x20 and (pte >> 2) & 3 == r - 2 and bool(pte & 0x400) == huge
+                        and (r < 3 or huge or ((pte >> 6) & 3 <= pte & 3 and (not tf0 or not pte & 0xc0))))
+            if good:
+                break
+        va |= idx << shift
+        if not go_on or huge or r == 1:
+            va |= rng.getrandbits(shift)
+            break
+        qlo, qhi = ((pte >> 6) & 3, pte & 3) if r >= 3 else (0, 3)
+        tbl, as_ = (pte & ~0x7ff if r == 2 else pte & ~0xfff), t
+        r -= 1
+    return va % W
+
+
+ADDR_STEER = {"s390x": (0.75, steer_s390x)}     # format -> (probability, function)
+FLIP_EXTRA = {"s390x": (2, 2)}                  # format -> walks per (form, depth) that get all bit flips (quick, thorough)
+
+
+# ---------------------------------------------------------------- methods and cases
 def meth_pgt(rng, fmt, form):
     root_as = rng.choice([0, 1, 2])
+    if fmt in AARCH64 and rng.random() < 0.03:
+        root_as = -1                     # ADDRXLAT_NOADDR
+    if fmt == "arm" and rng.random() < 0.02:
+        root_as = -1                     # ADDRXLAT_NOADDR: "Page table address not specified"
     root = rng.getrandbits(rng.choice([20, 32, 40])) & ~0xfff
     t = rng.choice([0, 1])
     k = rng.random()
@@ -87,13 +362,22 @@ def meth_pgt(rng, fmt, form):
 def gen_base(R, formats):
     """list of (setup_lines, fmt, form, be, addr)"""
     rng = R.rng
-    n = 250 if R.tier == "quick" else 5000
+    quick = R.tier == "quick"
+    n = 250 if quick else 5000
     cases = []
     for fmt in formats:
         for form in FORMS[fmt]:
-            for _ in range(n // len(FORMS[fmt])):
+            per_form = n // len(FORMS[fmt])
+            if fmt in AARCH64:
+                per_form = max(per_form, 40 if quick else 600)
+            for _ in range(per_form):
                 ml, be = mem_line(rng, fmt)
-                cases.append(([ml, "clr", meth_pgt(rng, fmt, form)], fmt, form, be, rand_addr(rng, form)))
+                mp = meth_pgt(rng, fmt, form)
+                if fmt in ADDR_STEER and rng.random() < ADDR_STEER[fmt][0]:
+                    addr = ADDR_STEER[fmt][1](rng, ml, mp, form)
+                else:
+                    addr = rand_addr(rng, form, fmt)
+                cases.append(([ml, "clr", mp], fmt, form, be, addr))
             for a in boundary_addrs(rng, form):
                 ml, be = mem_line(rng, fmt, be=False)
                 cases.append(([ml, "clr", meth_pgt(rng, fmt, form)], fmt, form, be, a))
@@ -129,8 +413,9 @@ def other_methods(R):
 
 def run(R):
     facts, changed = R.extract()
-    proof = R.prove(["Kdf.Props.C02"], THEOREMS) if THEOREMS else dict(obligations=0, discharged=0, broken=[], axioms={}, log="")
+    proof = R.prove(PROOF_MODULES, THEOREMS)
     formats = MODELLED
+    quick = R.tier == "quick"
     base = gen_base(R, formats)
     # phase 1: where does each walk read?  (model only)
     t1 = []
@@ -139,13 +424,18 @@ def run(R):
     reads = kdf.obs(R.run_driver("walk", "\n".join(t1) + "\n"))
     # phase 2: the cases: base walk, then walking-ones over the PTE read at each level
     lines, meta = [], []
-    nwalk = 0
-    budget = 40 if R.tier == "quick" else 400
+    seen_depth = {}
+    budget = 80 if quick else 800
     for ci, ((setup, fmt, form, be, addr), rd) in enumerate(zip(base, reads)):
         lines += setup
         lines.append("walk %d" % addr); meta.append((ci, "base"))
         locs = [tuple(int(x) if x != "-1" else -1 for x in t.split(":")) for t in rd.split()[1:]]
-        if ci % max(1, len(base) // budget) == 0:
+        extra_flips = False
+        if fmt in FLIP_EXTRA:       # also flip the first few walks of every depth of these formats
+            dk = (fmt, len(form), len(locs))
+            seen_depth[dk] = seen_depth.get(dk, 0) + 1
+            extra_flips = seen_depth[dk] <= FLIP_EXTRA[fmt][0 if quick else 1]
+        if extra_flips or ci % max(1, len(base) // budget) == 0:
             for (as_, a, sz) in locs:
                 if as_ < 0:
                     continue
@@ -155,6 +445,22 @@ def run(R):
                     lines.append("xor %d %d %d" % (as_, a + cellofs, 1 << (bit % 32)))
                     lines.append("walk %d" % addr); meta.append((ci, "flip L@%#x bit %d" % (a, bit)))
                     lines.append("clr")
+        if fmt == PPC64:
+            # plant one crafted entry (every descriptor kind) at one of the levels the base walk read; in the
+            # table-pointer memory also complete the deepest walk with a present last-level PTE
+            real = [l for l in locs if l[0] >= 0]
+            for _ in range(3):
+                if not real:
+                    break
+                lv = R.rng.randrange(len(real))
+                kind = R.rng.choice(PPC64_KINDS)
+                lines += ovr64(real[lv][0], real[lv][1], ppc64_entry(R.rng, kind), be)
+                lines.append("walk %d" % addr); meta.append((ci, "ppc64 %s at read %d" % (kind, lv)))
+                lines.append("clr")
+            if len(real) == len(form) - 1:
+                lines += ovr64(real[-1][0], real[-1][1], ppc64_entry(R.rng, "leaf"), be)
+                lines.append("walk %d" % addr); meta.append((ci, "ppc64 present last-level PTE"))
+                lines.append("clr")
     lines += other_methods(R)
     text = "\n".join(lines) + "\n"
     exe = R.build_harness("s_walk", ["s_walk.c"])
@@ -163,13 +469,14 @@ def run(R):
     drv = R.run_driver("walk", text)
     model = kdf.obs(drv)
     spec = [l[7:].strip() for l in drv.split("\n") if l.startswith("# spec ")]
-    nexp = 2 * sum(1 for l in lines if l.startswith("walk"))
+    walk_at = [j for j, l in enumerate(lines) if l.startswith("walk")]
+    walks = [lines[j] for j in walk_at]
+    nexp = 2 * len(walks)
     fail = None
     if rc != 0 or len(impl) != nexp:
         fail = (len(impl), "harness stopped after %d of %d observations (rc=%s): %s" % (len(impl), nexp, rc, err.strip()[:500]))
     # property on the implementation: one-call walk and launch+steps agree
     kinds = {}
-    walks = [l for l in lines if l.startswith("walk")]
     for i in range(0, len(impl) - 1, 2):
         w, s = impl[i].split(), impl[i + 1].split(" ")
         kinds[w[1]] = kinds.get(w[1], 0) + 1
@@ -185,27 +492,79 @@ def run(R):
             break
     # property proper: the implementation agrees with the architectural specification
     nspec = 0
+    ndev = {}           # tag -> number of inputs inside the documented deviation class
+    ndiff = {}          # tag -> how many of them actually give a different result
+    first_dev = {}      # tag -> (observation index, got, architecture) of the first input with a different result
     if fail is None:
         for i in range(0, len(impl) - 1, 2):
             sp = spec[i // 2] if i // 2 < len(spec) else "out-of-scope"
             if sp in ("out-of-scope", "notimpl", "unaligned"):
                 continue
-            nspec += 1
             got = impl[i].split(None, 1)[1].split(" C16")[0]
+            if sp.startswith("known-deviation"):
+                # documented deviation class (knownDeviation in the format's spec file): the line is
+                # `known-deviation <tag> <what the library is expected to give, or -> | <architecture>`
+                tag, rest = sp.split(None, 2)[1:]
+                quirk, strict = [x.strip() for x in rest.split("|")]
+                if tag not in DEV_FINDINGS and tag not in DEV_COUNTED:
+                    fail = (i, "the driver reports an unknown deviation class '%s' for '%s'" % (tag, walks[i // 2]))
+                    break
+                ndev[tag] = ndev.get(tag, 0) + 1
+                if got != strict:
+                    ndiff[tag] = ndiff.get(tag, 0) + 1
+                    first_dev.setdefault(tag, (i, got, strict))
+                if quirk != "-" and got != quirk:
+                    fail = (i, "translation of '%s' gives '%s'; inside the documented deviation class %s the library is expected to give '%s' (the architecture says '%s')" % (walks[i // 2], got, tag, quirk, strict))
+                    break
+                continue
+            nspec += 1
             if got != sp:
                 fail = (i, "translation of '%s' gives '%s', the architecture (resp. the method's definition) says '%s'" % (walks[i // 2], got, sp))
                 break
     mism = kdf.diff_streams(impl, model)
     def context(idx):
         """the protocol lines needed to replay observation idx"""
-        wi = idx // 2
-        k = [j for j, l in enumerate(lines) if l.startswith("walk")][wi]
+        k = walk_at[idx // 2]
         j = k
         while j > 0 and not lines[j].startswith("mem "):
             j -= 1
         keep = [l for l in lines[j:k] if l.startswith(("mem ", "meth "))]
-        last = lines[k - 1] if lines[k - 1].startswith(("xor", "ovr")) else None
-        return "\n".join(keep + ([last] if last else []) + [lines[k]]) + "\n"
+        c = k
+        while c > j and lines[c - 1].startswith(("xor", "ovr")):
+            c -= 1
+        return "\n".join(keep + lines[c:k] + [lines[k]]) + "\n"
+    # genuine, recorded findings: one report per class and run, the first input with a different result as replay
+    for tag in sorted(first_dev):
+        if tag in DEV_FINDINGS:
+            i, got, strict = first_dev[tag]
+            R.violation("translation of '%s' gives '%s', the architecture says '%s': %s (%d inputs of this class in this run, %d with a different result)"
+                        % (walks[i // 2], got, strict, DEV_FINDINGS[tag], ndev[tag], ndiff[tag]),
+                        dict(stream="walk", input=context(i), deviation_class=tag), key=tag)
+    # per format: which descriptor kind ended the walk at which level / how deep the walks got
+    akinds, depth = {}, {}
+    for wi, (ci, what) in enumerate(meta):
+        fmt, form = base[ci][1], base[ci][2]
+        if 2 * wi + 1 >= len(impl):
+            break
+        if fmt in AARCH64:
+            # r = field index, lookup level = 4 - r
+            st = impl[2 * wi + 1].split(" ")
+            rem = [int(x.split(",")[0]) for x in st[2].split("|")] if len(st) > 2 and st[2] else []
+            if st[1] == "ok":
+                blk = [a for a, b in zip(rem, rem[1:]) if a - b > 1]
+                kind = "block@r%d" % (blk[0] - 1) if blk else "page"
+            elif rem:
+                kind = "%s@r%d" % (st[1], rem[-1] - 1)
+            else:
+                kind = st[1]
+            d = akinds.setdefault("%s %s" % (fmt, ",".join(map(str, form))), {})
+            d[kind] = d.get(kind, 0) + 1
+        elif fmt in ("s390x", PPC64, "arm"):
+            # "<fmt> <base|flip|planted>:<nfields>/<states seen>/<status>"
+            st = impl[2 * wi + 1].split(" ")
+            k = "%s %s:%d/%d/%s" % (fmt, "base" if what == "base" else "flip" if what.startswith("flip") else "planted",
+                                    len(form), len(st[2].split("|")) if len(st) > 2 and st[2] else 0, st[1])
+            depth[k] = depth.get(k, 0) + 1
     if fail:
         R.violation(fail[1], dict(stream="walk", input=context(min(fail[0], len(impl) - 1)) if impl else "", stderr=err[-1500:], broken_theorems=proof["broken"]))
     elif proof["broken"] or mism is not None:
@@ -214,15 +573,27 @@ def run(R):
                          first_diff=None if mism is None else dict(index=mism, input=context(mism), impl=impl[mism][:600] if mism < len(impl) else None,
                                                                    model=model[mism][:600] if mism < len(model) else None)),
                     found_input=False)
+    per_fmt = {}
+    for ci, _ in meta:
+        per_fmt[base[ci][1]] = per_fmt.get(base[ci][1], 0) + 1
     cov = dict(obligations=max(proof["obligations"], 1), discharged=proof["discharged"],
-               checker_cmd="cd lean && lake build Kdf.Props.C02 && #print axioms on each theorem",
+               checker_cmd="cd lean && lake build %s && #print axioms on each theorem" % " ".join(PROOF_MODULES),
                trusted_base=["Lean 4 kernel", "memory is a pure function of (address space, address) served through get_page; reads are naturally aligned",
                              "harness/s_walk.c, gcc + ASan/UBSan"],
-               broken_theorems=proof["broken"], theorems=THEOREMS, formats=formats,
-               evaluations=len(walks), distinct_nontrivial=len(set(walks)),
+               broken_theorems=proof["broken"], theorems=THEOREMS, axioms=proof.get("axioms", {}), formats=formats,
+               evaluations=len(walks), distinct_nontrivial=len(set(walks)), walks_per_format=per_fmt,
                rule="per format and paging form: random and boundary input addresses over a pseudo-random memory steered by and/or masks "
-                    "(present bits, huge-page bits, small physical addresses), both byte orders, random roots/address spaces/PTE masks; for a sample "
-                    "of walks every single bit of the PTE read at every level is flipped (walking ones); linear, lookup and memory-array methods",
-               traces_validated_against_impl=len(impl), compared_with_spec=nspec, correspondence_first_diff=mism, status_histogram=kinds,
+                    "(present bits, huge-page bits, small physical addresses; per-architecture descriptor-type/address-bit modes), both byte orders, "
+                    "random roots/address spaces/PTE masks; for a sample of walks every single bit of the PTE read at every level is flipped (walking "
+                    "ones); linear, lookup and memory-array methods; s390x: input addresses steered level by level so that table types match, all bit "
+                    "flips for the first walks of every (form, depth); ppc64: memory modes for table pointers / leaf PTEs / both hugepd encodings, plus "
+                    "crafted entries of every kind planted (ovr) at each level the base walk reads",
+               traces_validated_against_impl=len(impl), compared_with_spec=nspec,
+               # inputs inside a documented deviation class (not compared with the architecture) / with a different result
+               excluded_known_deviation=ndev, known_deviation_differs=ndiff,
+               aarch64_kinds=akinds, depth_histogram=depth,
+               correspondence_first_diff=mism, status_histogram=kinds,
                samples=[dict(input=context(i)) for i in (0, (len(impl) // 4) * 2) if impl])
-    return "proof", cov, ["architecture specifications are my reading of the manuals", "custom methods are outside the model"]
+    return "proof", cov, ["architecture specifications are my reading of the manuals", "custom methods are outside the model",
+                          "ppc64 (Linux software format): the reference is a recollection of the Linux sources; its deviation classes D1/D2 are excluded and counted, not claimed as defects",
+                          "s390x: bit 52 of a valid page-table entry is ignored by the library (class s390x-D2, benign); inside the class the library must match the specification with that one quirk"]
